@@ -617,17 +617,20 @@ def resample_cases(rng, tier, variants):
         ex = gen_ex(rng, d, rng.choice([1, 2, 3]))
         env = {}
         exec(make_callable_src('vec', ex, None, False, d), env)
-        x = dom.element(env['f'])
-        op = odl.Resampling(dom, ran, interp)
         use_out = rng.random() < 0.3
-        if use_out:
-            y = ran.element(np.full(shape2, np.nan))
-            try:
-                op(x, out=y)
-            except ValueError:
-                pass    # recorded finding resampling-out-argument-valueerror (probed separately); y is still compared
-        else:
-            y = op(x)
+        try:
+            x = dom.element(env['f'])
+            op = odl.Resampling(dom, ran, interp)
+            if use_out:
+                y = ran.element(np.full(shape2, np.nan))
+                try:
+                    op(x, out=y)
+                except ValueError:
+                    pass    # recorded finding resampling-out-argument-valueerror (probed separately); y is compared
+            else:
+                y = op(x)
+        except Exception:           # an exception is a failing case (empty output), not a harness crash
+            y = np.zeros(0)
         cvs = [c.tolist() for c in dom.grid.coord_vectors]
         mesh = [c.tolist() for c in ran.grid.coord_vectors]
         term = ('{| r_cvs := %s; r_f := %s; r_ss := %s; r_mesh := %s; r_out := %s |}'
@@ -644,11 +647,14 @@ def resample_cases(rng, tier, variants):
                           for _ in range(int(np.prod(shape)))]).reshape(shape) for k in range(d)]
         dfield = dom.tangent_bundle.element(disp)
         use_out2 = rng.random() < 0.3
-        if use_out2:
-            o = np.full(int(np.prod(shape)), np.nan)
-            r = linear_deform(templ, dfield, interp=interp, out=o)
-        else:
-            r = linear_deform(templ, dfield, interp=interp)
+        try:
+            if use_out2:
+                o = np.full(int(np.prod(shape)), np.nan)
+                r = linear_deform(templ, dfield, interp=interp, out=o)
+            else:
+                r = linear_deform(templ, dfield, interp=interp)
+        except Exception:
+            r = np.zeros(0)
         pts = (dom.points() + np.stack([dk.ravel() for dk in disp], axis=1)).tolist()
         out = 'OVals %s []' % C.qs(np.asarray(r).ravel().tolist())
         term2 = case_term('per_axis', schemes, cvs, 'float64', vals, [], 'array', pts, [], variants, out)
